@@ -120,3 +120,30 @@ package kgo
 //@   requires forall i in 0..len(entries) :: forall j in 0..len(gaps) :: (entries[i].offset < gaps[j].firstOffset || entries[i].offset > gaps[j].lastOffset)
 //@   ensures [ascending-non-overlapping] forall i in 0..len(ranges)-1 :: ranges[i].lastOffset < ranges[i+1].firstOffset
 //@   ensures [well-formed] forall i in 0..len(ranges) :: ranges[i].firstOffset <= ranges[i].lastOffset
+
+// ---- C12 (c): records left unacknowledged are accepted at the next poll ----
+// finalizePreviousPoll hands every record of the previous poll to batchAckStates with AckAccept and without
+// strictZero, so tryAck's terminal path also replaces an unconfirmed AckRenew ("renews do not persist across
+// polls"); batchAckStates forwards status and strictZero unchanged to tryAck for each state and queues exactly the
+// states whose swap succeeded.
+//@ func (sc *shareConsumer) finalizePreviousPoll()
+//@   prop C12
+//@   site call batchAckStates#0 assert [auto-accept-replaces-zero-and-renew] arg0 == sc && arg1 == sc.lastPolled && arg2 == 1 && !arg3
+//@   ensures [previous-poll-finalised] old(len(sc.lastPolled)) > 0 ==> reached($batchAckStates0)
+
+//@ func batchAckStates(sc *shareConsumer, sts []*shareAckState, status AckStatus, strictZero bool)
+//@   prop C12
+//@   site call tryAck#0 assert [status-forwarded-unchanged] arg0 == st && arg1 == status && arg2 == strictZero
+//@   site call add#0 assert [only-swapped-states-are-queued] $tryAck0 && arg1 == st
+//@   ensures [queued-acks-are-enqueued] reached($enqueueAllAcks0)
+
+// poll: the previous poll is finalised before any new record is handed out (both places that fill).
+//@ func (sc *shareConsumer) poll(ctx context.Context, maxPollRecords int) (fs Fetches)
+//@   prop C12
+//@   site call poll$1#0 assert [previous-poll-finalised-before-new-records] reached($finalizePreviousPoll0)
+//@   site call poll$1#1 assert [previous-poll-finalised-before-new-records] reached($finalizePreviousPoll0)
+
+// leave: what the last poll handed out and is still undecided is released (not accepted) on close.
+//@ func (sc *shareConsumer) leave(ctx context.Context)
+//@   prop C12
+//@   site call batchAckStates#0 assert [unacknowledged-released-on-leave] arg0 == sc && arg1 == sc.lastPolled && arg2 == 2
